@@ -101,6 +101,20 @@ func main() {
 			}
 			os.Exit(2)
 		}
+		if os.Getenv("ZV_FACTS") != "" {
+			for _, b := range fn.Blocks {
+				if ifi, ok := b.Instrs[len(b.Instrs)-1].(*ssa.If); ok {
+					for _, f := range condFacts(ifi.Cond, true, idRes) {
+						y := ""
+						if f.Y != nil {
+							y = Expr(f.Y)
+						}
+						fmt.Printf("b%d %s: true-edge fact %s %s %s\n", b.Index, w.InstrPos(ifi), f.Op, Expr(f.X), y)
+					}
+				}
+			}
+			return
+		}
 		dumpFn(w, fn)
 		return
 	}
